@@ -1611,6 +1611,20 @@ impl ProtocolState {
         None
     }
 
+    // The earliest ack timeout that process_ack_timeouts would apply: the record of the operation currently being
+    // written is deferred until its packet is complete, so it must not hide the records of other operations.
+    fn get_next_applicable_ack_timeout(&self) -> Option<Instant> {
+        let earliest = self.operation_ack_timeouts.peek()?;
+        if Some(earliest.0.id) != self.current_operation {
+            return Some(earliest.0.timeout);
+        }
+
+        self.operation_ack_timeouts.iter()
+            .filter(|record| Some(record.0.id) != self.current_operation)
+            .map(|record| record.0.timeout)
+            .min()
+    }
+
     fn get_next_service_timepoint_disconnected(&self) -> Option<Instant> {
         None
     }
@@ -1622,10 +1636,8 @@ impl ProtocolState {
     fn get_next_service_timepoint_connected(&self) -> Option<Instant> {
         let mut next_service_time: Option<Instant> = fold_optional_timepoint_min(&None, &self.ping_timeout_timepoint);
 
-        if let Some(ack_timeout) = self.operation_ack_timeouts.peek() {
-            if Some(ack_timeout.0.id) != self.current_operation {
-                next_service_time = fold_timepoint(&next_service_time, &ack_timeout.0.timeout);
-            }
+        if let Some(ack_timeout) = self.get_next_applicable_ack_timeout() {
+            next_service_time = fold_timepoint(&next_service_time, &ack_timeout);
         }
 
         if self.pending_write_completion {
@@ -1640,10 +1652,8 @@ impl ProtocolState {
     fn get_next_service_timepoint_pending_disconnect(&self) -> Option<Instant> {
         let mut next_service_time = self.get_next_service_timepoint_protocol_queue(ProtocolQueueServiceMode::HighPriorityOnly);
 
-        if let Some(ack_timeout) = self.operation_ack_timeouts.peek() {
-            if Some(ack_timeout.0.id) != self.current_operation {
-                next_service_time = fold_timepoint(&next_service_time, &ack_timeout.0.timeout);
-            }
+        if let Some(ack_timeout) = self.get_next_applicable_ack_timeout() {
+            next_service_time = fold_timepoint(&next_service_time, &ack_timeout);
         }
 
         next_service_time
